@@ -259,6 +259,20 @@ func (e *modelEnv) tree(v Value, initial bool, depth int) interface{} {
 				return map[string]interface{}{"k": "opaque", "i": i}
 			}
 		}
+		switch reflectName(x.T) {
+		case "jsonpath.zzWrapped":
+			st := x.V.(*Struct)
+			return map[string]interface{}{"k": "raw", "r": "W:" + e.strOf(st.F[0]) + "(" + renderTree(e.tree(st.F[1], initial, depth+1)) + ")"}
+		case "jsonpath.zzWrappedAgg":
+			st := x.V.(*Struct)
+			return map[string]interface{}{"k": "raw", "r": "A:" + e.strOf(st.F[0]) + "(" + renderTree(e.tree(Iface{T: w.P.tSlice, V: st.F[1]}, initial, depth+1)) + ")"}
+		case "jsonpath.Accessor":
+			st := x.V.(*Struct)
+			if get, ok := st.F[0].(*FuncV); ok && get != nil {
+				v := s.callNested(get, nil)
+				return map[string]interface{}{"k": "raw", "r": "Acc(" + renderTree(e.tree(v, initial, depth+1)) + ")"}
+			}
+		}
 		if b, ok := x.T.Underlying().(*types.Basic); ok && b.Info()&types.IsInteger != 0 && w.identical(x.T, types.Typ[types.Int]) {
 			switch iv := x.V.(type) {
 			case int64:
@@ -349,6 +363,8 @@ func renderTree(t interface{}) string {
 		return "[" + strings.Join(parts, ",") + "]"
 	case "int":
 		return fmt.Sprint(m["v"])
+	case "raw":
+		return m["r"].(string)
 	case "opaque":
 		return fmt.Sprintf("o:%v", m["i"])
 	case "other":
